@@ -248,6 +248,11 @@ def process_kernel_batch(cases, stats, worker, sanitize=True, cc="clang-14"):
             rep = None
         elif "nobuild" in rep:
             raise bridge.HarnessError(f"worker could not rebuild a module the parent built: {rep}")
+        if rep is not None and rep.get("guard_zones_overwritten"):
+            fails.append(fail("llvm-writes-past-allocation", f"{d}: {rep['guard_zones_overwritten']} guard zone(s) behind "
+                              "blocks allocated by the JIT-compiled kernels were overwritten"))
+        if rep is not None and "guard_zones_overwritten" in rep:
+            labels.add("llvm_guarded_allocator")
         reassoc = None
         for tag in ("evaluate", "assemble", "compute"):
             wv = tag != "assemble"
